@@ -400,6 +400,52 @@ static void prop_spectral(Tape &t, Ctx &c) {
     } else c.label("nilpotent-skipped");
 }
 
+// block-valued matrices: Gershgorin with Frobenius norms of the blocks, scaled by ||D_i^-1||_F
+static void prop_spectral_blk(Tape &t, Ctx &c) {
+    Graph g = gen_graph(t, t.b() ? 5 : 25);
+    int n = g.n;
+    Csr<blk2> A; A.n = A.m = n; A.ptr.assign(n + 1, 0);
+    std::vector<std::map<ptrdiff_t, blk2>> rows(n);
+    auto rnd_blk = [&](double lo, double hi) { blk2 b; for (int q = 0; q < 4; ++q) b(q) = t.slogu(lo, hi); return b; };
+    for (auto &e : g.edges) { if (!t.chance(1, 6)) rows[e.first][e.second] = rnd_blk(0.05, 5); if (!t.chance(1, 6)) rows[e.second][e.first] = rnd_blk(0.05, 5); }
+    for (int i = 0; i < n; ++i) { // well conditioned but anisotropic diagonal blocks: diag(d1, d2) + small coupling
+        blk2 d; double d1 = t.logu(0.5, 200), d2 = t.logu(0.5, 200); d(0, 0) = d1; d(1, 1) = t.b() ? d2 : -d2; d(0, 1) = t.uni(-0.2, 0.2) * std::min(d1, d2); d(1, 0) = t.uni(-0.2, 0.2) * std::min(d1, d2);
+        rows[i][i] = d;
+    }
+    for (int i = 0; i < n; ++i) { for (auto &kv : rows[i]) { A.col.push_back(kv.first); A.val.push_back(kv.second); } A.ptr[i + 1] = static_cast<ptrdiff_t>(A.col.size()); }
+    int iters = static_cast<int>(t.u(1, 12));
+    c.desc << "spectral_radius<blk2> " << g.family << " n=" << n << " nnz=" << A.nnz() << " iters=" << iters << " threads=" << c.threads;
+    c.nontrivial = n >= 2 && A.nnz() > n;
+    c.label("fam:" + g.family); c.label("val:blk2");
+    auto a = to_crs<blk2>(A);
+    auto fro = [](const blk2 &b) { long double s = 0; for (int q = 0; q < 4; ++q) s += static_cast<long double>(b(q)) * b(q); return static_cast<double>(std::sqrt(s)); };
+    auto inv2 = [](const blk2 &b) { blk2 r; double det = b(0, 0) * b(1, 1) - b(0, 1) * b(1, 0); r(0, 0) = b(1, 1) / det; r(1, 1) = b(0, 0) / det; r(0, 1) = -b(0, 1) / det; r(1, 0) = -b(1, 0) / det; return r; };
+    Eigen::MatrixXd E = Eigen::MatrixXd::Zero(2 * n, 2 * n), S = Eigen::MatrixXd::Zero(2 * n, 2 * n);
+    double e0 = 0, e1 = 0;
+    for (int i = 0; i < n; ++i) {
+        blk2 di = inv2(rows[i][i]);
+        double rs = 0;
+        for (ptrdiff_t j = A.ptr[i]; j < A.ptr[i + 1]; ++j) {
+            rs += fro(A.val[j]);
+            blk2 sc = di * A.val[j];
+            for (int p = 0; p < 2; ++p) for (int q = 0; q < 2; ++q) { E(2 * i + p, 2 * A.col[j] + q) = A.val[j](p, q); S(2 * i + p, 2 * A.col[j] + q) = sc(p, q); }
+        }
+        e0 = std::max(e0, rs); e1 = std::max(e1, rs * fro(di));
+    }
+    auto rho = [](const Eigen::MatrixXd &M) { if (M.rows() == 0) return 0.0; Eigen::EigenSolver<Eigen::MatrixXd> es(M, false); double r = 0; for (int i = 0; i < M.rows(); ++i) r = std::max(r, std::abs(es.eigenvalues()[i])); return r; };
+    auto smax = [](const Eigen::MatrixXd &M) { if (M.rows() == 0) return 0.0; Eigen::JacobiSVD<Eigen::MatrixXd> svd(M); return svd.singularValues()(0); };
+    double g0 = ab::spectral_radius<false>(*a, 0), g1 = ab::spectral_radius<true>(*a, 0);
+    double r0 = rho(E), r1 = rho(S);
+    VF_REQUIRE(std::abs(g0 - e0) <= 1e-12 * e0, "block Gershgorin value " << g0 << " expected max_i sum_j ||A_ij||_F = " << e0);
+    VF_REQUIRE(std::abs(g1 - e1) <= 1e-10 * e1, "scaled block Gershgorin value " << g1 << " expected max_i ||D_i^-1||_F sum_j ||A_ij||_F = " << e1);
+    VF_REQUIRE(g0 >= r0 * (1 - 1e-10), "block Gershgorin bound " << g0 << " below spectral radius " << r0);
+    VF_REQUIRE(g1 >= r1 * (1 - 1e-10), "scaled block Gershgorin bound " << g1 << " below spectral radius of D^-1 A " << r1);
+    double p0 = ab::spectral_radius<false>(*a, iters), p1 = ab::spectral_radius<true>(*a, iters);
+    double s0 = smax(E), s1 = smax(S);
+    if (r0 > 1e-6 * s0) VF_REQUIRE(p0 <= s0 * (1 + 1e-9) && p0 >= 0, "block power estimate " << p0 << " exceeds sigma_max(A) " << s0);
+    if (r1 > 1e-6 * s1) VF_REQUIRE(p1 <= s1 * (1 + 1e-9) && p1 >= 0, "scaled block power estimate " << p1 << " exceeds sigma_max(D^-1 A) " << s1);
+}
+
 static std::vector<Prop> props() {
     std::vector<int> th = {1, 4, 17};
     return {
@@ -418,6 +464,7 @@ static std::vector<Prop> props() {
         Prop("pointwise", prop_pointwise, 3000, 30000, 100, 30, {1, 4}, 1, 4),
         Prop("pointwise_blockval", prop_pointwise_blockval, 500, 4000, 100, 30, {1}, 1, 1),
         Prop("spectral", prop_spectral, 1500, 12000, 100, 20, {1, 4}, 1, 4),
+        Prop("spectral_blk2", prop_spectral_blk, 800, 6000, 100, 20, {1, 4}, 1, 2),
     };
 }
 
